@@ -314,12 +314,16 @@ class _DC:
         self.fields = fields
 
 
-def k3_aggregate(present: List[List[bool]], verdict: List[List[bool]], extra_null: bool) -> bool:
+def k3_aggregate(present: List[List[bool]], verdict: List[List[bool]], extra_null: bool, in_data: List[bool]) -> bool:
     """
-    pre: 1 <= len(present) <= P['nf'] and len(verdict) == len(present)
+    pre: 1 <= len(present) <= P['nf'] and len(verdict) == len(present) and len(in_data) == len(present)
     pre: all(len(p) == len(KINDS) for p in present) and all(len(p) == len(KINDS) for p in verdict)
+    pre: all(d or not any(v) for d, v in zip(in_data, verdict))
+    pre: not extra_null or all(in_data)
     post: __return__
     """
+    # in_data: whether the data has the field at all; every verifier answers False for a field it lacks (K1), so
+    # the verdict table is all-False there, and those failures count like any other
     names = ['f%d' % i for i in range(len(present))]
 
     def run(with_extra):
@@ -334,7 +338,7 @@ def k3_aggregate(present: List[List[bool]], verdict: List[List[bool]], extra_nul
         for k in KINDS[:-1]:
             verifiers[k] = (lambda kk: (lambda name, c, detect: table[name][kk]))(k)
         verifiers['rex'] = lambda name, c, detect: True         # a null-valued constraint is satisfied
-        return base.verify(_DC(fields), list(reversed(names)), verifiers)
+        return base.verify(_DC(fields), [n for n, d in reversed(list(zip(names, in_data))) if d], verifiers)
     r = run(False)
     tp = tf = 0
     for n, p, v in zip(names, present, verdict):
